@@ -512,9 +512,13 @@ def m_grow(rng):
     m.func([I32, I32], [I32], [], [lget(0), lget(1), mem("i32.store"), ins("memory.size", m=0)], export="st")
     m.func([I32], [I32], [], [lget(0), mem("i32.load")], export="ld")
     m.func([I32], [I64], [], [lget(0), mem("i64.load")], export="ld64")
+    # an offset that does not fit 16 bits: base 4 + 65540 is inside the second page
+    m.func([I32], [I32], [], [lget(0), mem("i32.load", 65540)], export="ldbig")
+    m.func([I32, I32], [I32], [], [lget(0), lget(1), mem("i32.store16", 131000), ins("memory.size", m=0)], export="stbig")
     grow = [C("size", [], []), C("grow", [1], [I32]), C("size", [], []), C("st", [65536 + 8, 77], [I32, I32]),
-            C("ld", [65536 + 8], [I32]), C("grow", [2], [I32]), C("grow", [1], [I32]), C("size", [], []),
-            C("grow", [0], [I32]), C("grow", [-1], [I32]), C("grow", [65536], [I32]), C("size", [], []),
+            C("ld", [65536 + 8], [I32]), C("ldbig", [4], [I32]), C("grow", [2], [I32]), C("grow", [1], [I32]), C("size", [], []),
+            C("grow", [0], [I32]), C("stbig", [70, -2], [I32, I32]), C("ld64", [131068], [I32]),
+            C("grow", [-1], [I32]), C("grow", [65536], [I32]), C("size", [], []),
             C("ld64", [3 * 65536 - 8], [I32])]
     return [item("memgrow", m, [grow, grow[:6] + [C("ld", [3 * 65536 - 3], [I32])],
                                 [C("ld", [65536], [I32])], [C("grow", [1], [I32]), C("ld", [2 * 65536 - 4], [I32]),
